@@ -83,6 +83,7 @@ class St:
         self.keys = []                # session keys of all objects created in this history
         self.points = []              # ephemeral points of all packed ECC blocks in this history
         self.encs = encryptors()      # the caller's encryptor objects live as long as the history (as in the appnotes)
+        self.keptkey = [None, None]   # per slot: the key those kept blocks wrap, once the content moved into a file with another key
         self.kept = [set(), set()]    # per slot: tags of blocks the last Read had no decryptor for (must be kept byte-for-byte)
         self.prov = ["fresh", "fresh"]  # per slot: were the component objects built by the caller or by the reader?
 
@@ -102,7 +103,8 @@ def canon(st):
             out.append(None)
             continue
         blocks = tuple((b.tag, type(b).__name__, getattr(b, "key_selector", None)) for b in o.auth_blocks.values())
-        out.append((st.origin[i], blocks, st.texts[i] is not None, tuple(sorted(st.kept[i])), st.prov[i]))
+        out.append((st.origin[i], blocks, st.texts[i] is not None, tuple(sorted(st.kept[i])), st.prov[i],
+                    bool(st.kept[i]) and st.keptkey[i] is not None and st.keptkey[i] != o.session_key))
     return tuple(out)
 
 
@@ -161,15 +163,20 @@ def step(st, op):
         st.keys.append(b.session_key)
         st.objs[slot], st.texts[slot], st.raws[slot], st.cur = b, None, None, slot
         st.kept[slot] = set()
+        st.keptkey[slot] = None
         st.prov[slot] = "fresh"
         return st, o
     if kind == "rekey":
         # the content (possibly obtained by reading a file) is put into a new Bec2File under another session key
-        if obj is None or st.kept[i]:
+        if obj is None:
             return None
         newkey = keyval(op[1])
         if obj.session_key == newkey:
             return None
+        # blocks kept unopened from the file that was read still wrap THAT file's key: st.keptkey remembers it, the next
+        # write must refuse (or the written header would hold blocks for two different keys)
+        if st.kept[i] and st.keptkey[i] is None:
+            st.keptkey[i] = obj.session_key
         st.objs[i] = Bec2File(obj.bf3file, list(obj.auth_blocks.values()), session_key=newkey)
         st.origin[i] = "K%d" % op[1]
         st.texts[i] = None
@@ -196,8 +203,19 @@ def step(st, op):
         if not obj.auth_blocks:
             return None
         s = io.StringIO()
-        with rnd:
-            obj.write_file(s, st.encs)
+        foreign = bool(st.kept[i]) and st.keptkey[i] is not None and st.keptkey[i] != obj.session_key
+        try:
+            with rnd:
+                obj.write_file(s, st.encs)
+        except Exception as e:
+            if not foreign:
+                raise
+            # the only sound answer: a block that cannot be re-wrapped for the file's key is not written
+            st.counter = rnd.counter
+            o.cls = "write-refused-foreign-kept-block"
+            if s.getvalue():
+                o.viol("keep|refused-after-output", "the write was refused (%r) after part of the file had been written" % (e,))
+            return st, o
         st.counter = rnd.counter
         text = s.getvalue()
         binary = bytes.fromhex("".join(text.split("\n\n", 1)[1].split()))
@@ -235,6 +253,7 @@ def step(st, op):
         st.objs[i] = r
         st.prov[i] = "read"
         st.kept[i] = {t for t in obj.auth_blocks if KINDS[t] not in D}
+        st.keptkey[i] = None
         return st, o
     raise ValueError(op)
 
